@@ -307,6 +307,13 @@ def oracle_binding(symbols, outcome):
         for name, v in info.param.items():
             if type(v).__name__ == "ArrayElemDesc" and v.data_index not in info.data.values():
                 return "binding:element-of-unnamed-array", name
+        defined = {(sp, name) for (_s, sp, name, _t) in defs}
+        for name in info.param:
+            if ("par", name) not in defined:
+                return "binding:par-entry-without-definition", name
+        for name in info.data:
+            if ("data", name) not in defined:
+                return "binding:data-entry-without-definition", name
         return None
     exc = outcome[1]
     if type(exc).__name__ != "ParseException":
@@ -550,9 +557,11 @@ def oracle_batch(proc, lib: FakeADwinLib, op, param, arrays, pre_snap, batch_raw
         single_touched = lib.touched()
         lib.log = keep_log
         if single_post != post:
-            diff = [k for k in ("par", "fpar") for i in range(1, 81)
-                    if (post[0] if k == "par" else post[1])[i] != (single_post[0] if k == "par" else single_post[1])[i]]
-            return f"batch-{op[0]}:registers-differ-from-one-at-a-time:{cls}", f"{op} {diff[:3]}"
+            diff = [f"Par_{i}: batch {post[0][i]} / single {single_post[0][i]}" for i in range(1, 81) if post[0][i] != single_post[0][i]]
+            diff += [f"FPar_{i}: batch {post[1][i]} / single {single_post[1][i]}" for i in range(1, 81) if post[1][i] != single_post[1][i]]
+            diff += [f"Data_{d}[{e}]: batch {post[2][d][e]} / single {single_post[2][d][e]}"
+                     for d in sorted(post[2]) for e in range(1, len(post[2][d])) if post[2][d][e] != single_post[2][d][e]]
+            return f"batch-{op[0]}:registers-differ-from-one-at-a-time:{cls}", f"{op}: {'; '.join(diff[:3])}"
         if op[0] == "mget":
             if set(batch_raw.keys()) != set(single.keys()):
                 return f"batch-get:returned-names-differ:{cls}", f"{sorted(batch_raw)} vs {sorted(single)}"
@@ -1109,7 +1118,7 @@ def run_program_scenario(sc: dict, root: Path, count=None):
             # the route the manager takes: ProgramInfo.from_config(parse_parameters=True)
             if sc["top"].endswith(".bas") and sc["incdir"] == os.path.dirname(sc["top"]) and not sc.get("top_raw"):
                 from qmi.utils.adwin_manager import CfgAdwinProgram, ProgramInfo
-                cfg = CfgAdwinProgram(file="main", slot=1, trigger="Timer", priority=1, parse_parameters=True)
+                cfg = CfgAdwinProgram(file=os.path.basename(sc["top"])[:-4], slot=1, trigger="Timer", priority=1, parse_parameters=True)
                 try:
                     if relative:
                         os.chdir(cwd)
@@ -1257,6 +1266,46 @@ def shrink_layout(sc: dict, sig: str) -> dict:
     return cur
 
 
+def shrink_program(sc: dict, sig: str, root: Path) -> dict:
+    """Greedy deletion of accessor ops (and of names inside them) keeping the same oracle clause."""
+    if not sc.get("ops"):
+        return sc
+    n = [0]
+
+    def fails(c):
+        n[0] += 1
+        try:
+            _l, _o, f, _i = run_program_scenario(dict(c), root / f"k{n[0]}")
+        except Exception:  # noqa
+            return False
+        return any(x[0] == sig for x in f)
+
+    cur = dict(sc, ops=[list(o) for o in sc["ops"]])
+    if not fails(cur):
+        return sc
+    changed = True
+    while changed and n[0] < 200:
+        changed = False
+        i = 0
+        while i < len(cur["ops"]):
+            cand = dict(cur, ops=cur["ops"][:i] + cur["ops"][i + 1:])
+            if fails(cand):
+                cur, changed = cand, True
+            else:
+                i += 1
+        for oi, op in enumerate(cur["ops"]):
+            if op[0] in ("mget", "mset", "startwp"):
+                j = 0
+                while j < len(op[1]):
+                    new_op = [op[0], list(op[1][:j]) + list(op[1][j + 1:])]
+                    cand = dict(cur, ops=cur["ops"][:oi] + [new_op] + cur["ops"][oi + 1:])
+                    if fails(cand):
+                        cur, op, changed = cand, new_op, True
+                    else:
+                        j += 1
+    return cur
+
+
 class C20(Prop):
     id = "C20"
     lean_modules = ["QmiModel.Props.C20"]
@@ -1310,6 +1359,8 @@ class C20(Prop):
                 small = case
                 if kind == "layout":
                     small = shrink_layout(case, sig)
+                elif kind == "program" and sig.startswith(("batch-", "single-")):
+                    small = shrink_program(case, sig, tmp / f"shrink{len(res.failures)}")
                 res.failures.append(Failure(sig, f"{sig}: {detail} [{kind}]", {"kind": kind, "scenario": small, "clause": sig}))
 
         with tempfile.TemporaryDirectory(prefix="c20_") as tmp:
